@@ -25,6 +25,25 @@ CHECKS = {
              "has no designated code are outside the catalogue (DESIGN §4.2); context-dependent misses are recorded by "
              "mechanism in known_findings.json.",
         design="§4.2"),
+    "C07": dict(
+        technique="runtime monitor on the registry's segmentation (M-SEG: Registry.run / run_rules / Context.pop_tokens wrappers)",
+        text="On every monitored run (conforming files, variants, fragment insertions): each matched statement claims >= 1 "
+             "token, the registry pops exactly what the matching rule claimed and nothing else pops, the statements tile "
+             "the token list, an unrecognised token always ends in the fatal diagnostic (API: CParsingError; CLI: fatal "
+             "form, exit 1, no stray output). On conforming files: statements start in column 1, end with NEWLINE, their "
+             "number equals the IR line count known by construction, and the scope is GlobalScope after each function.",
+        note="Fragments absorbed by a Primary rule say nothing about C07 and are only counted. One statement per IR line "
+             "is a property of the generator.",
+        design="§3.1 M-SEG, §4.7"),
+    "C08": dict(
+        technique="runtime monitor on Errors.add (M-DIAG) + formatter comparison through strict report parsers + exhaustive comparator-law check",
+        text="Every diagnostic emitted in the workloads is asserted at emission time (catalogue code and text, level, >= 1 "
+             "highlight, 1 <= line <= nlines, column >= 1); both formatters are run in-process and through the CLI on "
+             "lists of 1-5 files and their parsed reports must describe the same files, verdicts and diagnostics in the "
+             "same ascending order, equal to what the rules emitted; Error.__lt__ is checked to be a strict weak order "
+             "consistent with the printed position on all pairs/triples of a 1026-value domain.",
+        note="Trusts the two report parsers in nv/oracle.py; highlight-less Errors are outside the domain.",
+        design="§3.1 M-DIAG, §4.8"),
     "C09": dict(
         technique="runtime monitor on the lexer cursor (M-LEX) compared with an independent position scanner",
         text="Every token produced by the real lexer on an exhaustively enumerated small-string space, on seeded lexeme "
